@@ -2,6 +2,8 @@
 //! Case: `scan fn=<f> ty=<int type|-> d=<hex> off=<n> bl=<bytes buffered before the call> p=<hex pattern>`
 //! The source hands out `bl` bytes in its first read and one byte per read afterwards, so the
 //! number of bytes delivered at the end is exactly what the scanner demanded.
+//! Optional `c=<chunk size>` (scale family): the reader's chunk size; the `bl` bytes then arrive in
+//! reads of `c` bytes.  `d` and `p` are data fields (`common::data_field`).
 use crate::common::*;
 use flussab::{text, DeferredReader};
 
@@ -113,16 +115,26 @@ pub fn run_case(line: &str) -> (String, Vec<String>) {
     let data = data_field(f.get("d"));
     let off = f.num("off");
     let bl = f.num("bl");
-    let pat = unhex(f.opt("p").unwrap_or("-"));
+    let pat = data_field(f.opt("p").unwrap_or("-"));
+    let chunk = f.opt("c").map(|c| c.parse::<usize>().unwrap().max(1));
     let mut sched = vec![];
-    if bl > 0 {
-        sched.push(Ev::Give(bl));
+    // the first `bl` bytes (as far as they exist) in reads of one chunk, then one byte per read
+    let full = bl.min(data.len());
+    let per = chunk.unwrap_or(16 << 10);
+    for _ in 0..full / per {
+        sched.push(Ev::Give(per));
     }
-    for _ in 0..data.len() + 4 {
+    if full % per > 0 {
+        sched.push(Ev::Give(full % per));
+    }
+    for _ in 0..data.len() - full + 4 {
         sched.push(Ev::Give(1));
     }
     let src = SchedSource::new(data.clone(), false, sched);
     let mut r = DeferredReader::from_read(src.clone());
+    if let Some(c) = chunk {
+        r.set_chunk_size(c);
+    }
     if bl > 0 {
         r.request(bl.min(data.len()).max(1));
     }
@@ -305,7 +317,10 @@ fn rand_numeral(rng: &mut Rng, ty: &str) -> Vec<u8> {
     s.into_bytes()
 }
 
-pub fn gen_case(rng: &mut Rng, _thorough: bool) -> String {
+pub fn gen_case(rng: &mut Rng, thorough: bool) -> String {
+    if cli_opt_has("scale") {
+        return gen_scale(rng, thorough);
+    }
     if rng.chance(2, 3) {
         let func = *rng.pick(INT_FNS);
         let ty = *rng.pick(INT_TYPES);
@@ -381,4 +396,385 @@ pub fn exhaustive_ws(maxlen: usize) -> Vec<String> {
         }
     }
     out
+}
+
+// ------------------------------------------------------------------ scale family (`--opt scale`)
+
+/// `--opt` of the command line.  The generator loop in `main.rs` hands this engine only the rng
+/// and the tier, so the family switch is read from the process arguments.
+pub fn cli_opt() -> String {
+    let args: Vec<String> = std::env::args().collect();
+    args.iter().position(|a| a == "--opt").and_then(|i| args.get(i + 1)).cloned().unwrap_or_default()
+}
+
+pub fn cli_opt_has(word: &str) -> bool {
+    cli_opt().split('+').any(|w| w == word)
+}
+
+/// Sizes of one scale dimension, split by origin.  The universe is `common::scale_sizes(lo_k, hi_k)`;
+/// `must` are the members derived from an integer constant of the current source (never thinned),
+/// `pow[i]` the remaining members around `2^(lo_k + i)`.
+pub struct SizeLists {
+    pub must: Vec<usize>,
+    pub pow: Vec<(u32, Vec<usize>)>,
+}
+
+pub fn size_lists(lo_k: u32, hi_k: u32) -> SizeLists {
+    let all = scale_sizes(lo_k, hi_k);
+    let (lo, hi) = (1u64 << lo_k, (1u64 << hi_k) + 64);
+    let mut from_const: Vec<usize> = vec![];
+    for c in source_consts() {
+        if c >= lo && c <= hi {
+            for x in [c - 1, c, c + 1, c + 8, c + 9, 2 * c, 2 * c + 1, 3 * (c + 1), 5 * (c + 1), 4 * c + 4] {
+                from_const.push(x as usize);
+            }
+        }
+    }
+    let must: Vec<usize> = all.iter().copied().filter(|s| from_const.contains(s)).collect();
+    let mut pow = vec![];
+    for k in lo_k..=hi_k {
+        let p = 1usize << k;
+        let v: Vec<usize> = all.iter().copied().filter(|&s| s + 1 >= p && s <= p + 9 && !must.contains(&s)).collect();
+        pow.push((k, v));
+    }
+    SizeLists { must, pow }
+}
+
+/// The plan of a scale run: `(dimension, size)` pairs, sizes that come from a source constant
+/// first (every dimension sees each of them), then the sizes around powers of two.  In the quick
+/// tier a dimension `d` takes all power-of-two variants up to `2^full_k[d]` and `above` random
+/// variants per larger power (that is where the cost is); thorough takes them all.
+pub fn scale_plan(rng: &mut Rng, dims: &[(u32, u32, u32)], above: usize, thorough: bool) -> Vec<(usize, usize)> {
+    let mut plan = vec![];
+    let lists: Vec<SizeLists> = dims.iter().map(|&(lo, hi, _)| size_lists(lo, hi)).collect();
+    let mut musts: Vec<usize> = lists.iter().flat_map(|l| l.must.iter().copied()).collect();
+    musts.sort();
+    musts.dedup();
+    for s in musts {
+        for (d, l) in lists.iter().enumerate() {
+            if l.must.contains(&s) {
+                plan.push((d, s));
+            }
+        }
+    }
+    let (klo, khi) = (dims.iter().map(|d| d.0).min().unwrap(), dims.iter().map(|d| d.1).max().unwrap());
+    for k in klo..=khi {
+        for (d, l) in lists.iter().enumerate() {
+            let Some((_, v)) = l.pow.iter().find(|(kk, _)| *kk == k) else { continue };
+            if thorough || k <= dims[d].2 {
+                plan.extend(v.iter().map(|&s| (d, s)));
+            } else {
+                let mut v = v.clone();
+                for _ in 0..above.min(v.len()) {
+                    let i = rng.below(v.len() as u64) as usize;
+                    plan.push((d, v.remove(i)));
+                }
+            }
+        }
+    }
+    plan
+}
+
+static SCALE_IDX: std::sync::atomic::AtomicUsize = std::sync::atomic::AtomicUsize::new(0);
+static SCALE_PLAN: std::sync::OnceLock<Vec<(usize, usize)>> = std::sync::OnceLock::new();
+
+/// the dimensions of the scan scale family
+const D_RUN: usize = 0; // length of the digit run
+const D_OFF: usize = 1; // scan offset
+const D_BL: usize = 2; // amount buffered before the call (numeral straddles its end)
+const D_BLANKS: usize = 3; // run of tabs/spaces
+const D_LINE: usize = 4; // line length (next_newline)
+const D_PAT: usize = 5; // pattern length (fixed)
+const D_CHUNK: usize = 6; // reader chunk size
+const D_TAIL: usize = 7; // bytes behind the deciding byte (must stay untouched)
+
+fn digits_of(rng: &mut Rng, n: usize) -> Vec<u8> {
+    (0..n).map(|_| b'0' + rng.below(10) as u8).collect()
+}
+
+/// A digit run of exactly `len` bytes as a data field; second component: whether the first
+/// character may be preceded by `-` and still be meaningful for the type (always true).
+fn scale_run(rng: &mut Rng, len: usize, ty: &str, neg: bool) -> String {
+    let (absmin, max) = type_bounds(ty);
+    let bound = if neg && absmin != "0" { absmin } else { max };
+    let kind = rng.below(10);
+    let lit = |d: &[u8]| if d.is_empty() { "-".to_string() } else { hex(d) };
+    match kind {
+        // zeros then a value around the bound of the type / a short value / a wrap-class value
+        0..=4 => {
+            let v: Vec<u8> = match rng.below(5) {
+                0 => bound.clone().into_bytes(),
+                1 => {
+                    let mut d = digits_of(rng, bound.len());
+                    d[0] = b'1' + rng.below(9) as u8;
+                    d
+                }
+                2 => {
+                    let n = rng.range(1, bound.len() as u64) as usize;
+                    let mut d = digits_of(rng, n);
+                    d[0] = b'1' + rng.below(9) as u8;
+                    d
+                }
+                3 => crate::gen_cnf::wrap_class_numeral(rng, false).into_iter().filter(|b| b.is_ascii_digit()).collect(),
+                _ => { let n = rng.range(1, 9) as usize; digits_of(rng, n) },
+            };
+            let v = if v.len() > len { v[v.len() - len..].to_vec() } else { v };
+            if v.len() == len { lit(&v) } else { format!("r{}.30+{}", len - v.len(), lit(&v)) }
+        }
+        // one repeated digit (all nines, all ones, all zeros)
+        5 => format!("r{}.{:02x}", len, *rng.pick(b"9910")),
+        // a non-zero digit then zeros: 10^(len-1) * d, zero in every wrapping accumulator
+        6 => {
+            if len == 1 { lit(b"7") } else { format!("{}+r{}.30", lit(&[b'1' + rng.below(9) as u8]), len - 1) }
+        }
+        // a short period repeated
+        7 => {
+            let p = { let n = rng.range(2, 11) as usize; digits_of(rng, n) };
+            let (q, r) = (len / p.len(), len % p.len());
+            format!("r{}.{}+{}", q, hex(&p), lit(&p[..r]))
+        }
+        // consecutive 7-digit numbers: no short period
+        8 => {
+            let (q, r) = (len / 7, len % 7);
+            let start = rng.range(1_000_000, 8_000_000);
+            let step = rng.range(1, 3);
+            let q = q.min(((9_999_999 - start) / step) as usize);
+            let rest = len - 7 * q;
+            let _ = r;
+            if rest > 64 { format!("n{}.{}.{}.-.-+r{}.38", q, start, step, rest) } else { format!("n{}.{}.{}.-.-+{}", q, start, step, lit(&digits_of(rng, rest))) }
+        }
+        // zeros, a value, and zeros again (overflow decided far from both ends)
+        _ => {
+            let v = bound.clone().into_bytes();
+            if len <= v.len() + 2 {
+                lit(&digits_of(rng, len))
+            } else {
+                let a = rng.range(0, (len - v.len()) as u64) as usize;
+                let b = len - v.len() - a;
+                let z = |n: usize| if n == 0 { "-".to_string() } else { format!("r{}.30", n) };
+                format!("{}+{}+{}", z(a), hex(&v), z(b))
+            }
+        }
+    }
+}
+
+fn junk_field(rng: &mut Rng, n: usize) -> String {
+    if n == 0 {
+        return "-".into();
+    }
+    if n < 64 {
+        return hex(&(0..n).map(|_| *rng.pick(b" x-07\n")).collect::<Vec<u8>>());
+    }
+    match rng.below(3) {
+        0 => format!("r{}.{:02x}", n, *rng.pick(b"0 9-\n")),
+        1 => format!("g{}.{}", n, rng.below(1000)),
+        _ => {
+            let p = *rng.pick(&[&b"12 "[..], b"-0", b"\r\n7", b"0000000-"]);
+            let (q, r) = (n / p.len(), n % p.len());
+            format!("r{}.{}+{}", q, hex(p), if r == 0 { "-".to_string() } else { hex(&p[..r]) })
+        }
+    }
+}
+
+fn term_field(rng: &mut Rng) -> String {
+    // terminator and a little tail; `-` = end of input right behind the run
+    if rng.chance(1, 5) {
+        return "-".into();
+    }
+    let mut t = vec![if rng.chance(2, 3) { *rng.pick(b" \n\t-/:a}") } else { rng.next() as u8 }];
+    if t[0].is_ascii_digit() {
+        t[0] = b'/';
+    }
+    for _ in 0..rng.below(6) {
+        t.push(*rng.pick(b" 0123456789-\nz"));
+    }
+    hex(&t)
+}
+
+fn join_fields(parts: &[String]) -> String {
+    let v: Vec<&str> = parts.iter().map(|s| s.as_str()).filter(|s| *s != "-").collect();
+    if v.is_empty() { "-".into() } else { v.join("+") }
+}
+
+/// chunk size for a case that pre-buffers `bl` bytes: at most 4096 reads for the pre-buffering
+fn pick_chunk(rng: &mut Rng, bl: usize, sizes: &[usize]) -> usize {
+    let floor = bl / 4096 + 1;
+    let c = match rng.below(6) {
+        0 | 1 => 16 << 10,
+        2 => *rng.pick(sizes),
+        3 => 1usize << rng.range(0, 21),
+        4 => bl.max(1),
+        _ => rng.range(1, 600) as usize,
+    };
+    c.max(floor)
+}
+
+pub fn gen_scale(rng: &mut Rng, thorough: bool) -> String {
+    let idx = SCALE_IDX.fetch_add(1, std::sync::atomic::Ordering::Relaxed);
+    let hi = if thorough { 22 } else { 21 };
+    let plan = SCALE_PLAN.get_or_init(|| {
+        // (lo_k, hi_k, all variants up to 2^k in the quick tier)
+        let dims = [(10, 21, 16), (10, hi, 17), (10, hi, 17), (10, hi, 17), (10, hi, 17), (10, hi, 17), (10, hi, 17), (10, hi, 17)];
+        scale_plan(&mut rng.fork(), &dims, 1, thorough)
+    });
+    let (dim, size) = plan[idx % plan.len()];
+    let sizes = scale_sizes(10, 21);
+    let int_case = |rng: &mut Rng, func: &str, ty: &str, pre: String, off: usize, run: String, runlen: usize, term: String, bl: usize, c: Option<usize>| {
+        let _ = runlen;
+        let d = join_fields(&[pre, run, term]);
+        let _ = rng;
+        match c {
+            Some(c) => format!("scan fn={} ty={} d={} off={} bl={} c={} p=-", func, ty, d, off, bl, c),
+            None => format!("scan fn={} ty={} d={} off={} bl={} p=-", func, ty, d, off, bl),
+        }
+    };
+    match dim {
+        D_RUN => {
+            let func = *rng.pick(&["digits_multi", "digits_multi", "sdigits_multi", "sdigits_multi", "digits", "sdigits"]);
+            let ty = *rng.pick(INT_TYPES);
+            let signed_scan = func.starts_with('s');
+            let neg = if signed_scan { rng.chance(1, 2) } else { rng.chance(1, 25) };
+            let off = match rng.below(6) {
+                0 => rng.range(1, 9) as usize,
+                1 => *rng.pick(&sizes),
+                _ => 0,
+            };
+            let pre = junk_field(rng, off);
+            // with a sign the run is the digits behind it
+            let run = scale_run(rng, size, ty, neg);
+            let run = if neg { format!("2d+{}", run) } else { run };
+            let total_run = size + neg as usize;
+            let term = term_field(rng);
+            let bl = match rng.below(12) {
+                0 => 0,
+                1 => off + 7,
+                2 => off + 8,
+                3 => off + 9,
+                4 => off + total_run / 2,
+                5 => off + total_run - 1,
+                6 => off + total_run,
+                7 => off + total_run + 1,
+                8 => off + *rng.pick(&sizes),
+                _ => off + total_run + 40,
+            };
+            let c = if rng.chance(1, 3) { None } else { Some(pick_chunk(rng, bl, &sizes)) };
+            // without `c` the default chunk applies: keep the pre-buffering reads few
+            let c = if c.is_none() && bl > (16 << 10) * 64 { Some(bl) } else { c };
+            int_case(rng, func, ty, pre, off, run, total_run, term, bl, c)
+        }
+        D_OFF | D_BL | D_CHUNK | D_TAIL => {
+            // a short numeral or a short whitespace pattern placed at scale
+            let ws = rng.chance(1, 3);
+            let func = if ws { *rng.pick(WS_FNS) } else { *rng.pick(INT_FNS) };
+            let ty = if ws { "-" } else { *rng.pick(INT_TYPES) };
+            let mut body: Vec<u8> = if ws {
+                match func {
+                    "blanks" => (0..rng.range(0, 20)).map(|_| *rng.pick(b" \t")).collect(),
+                    "newline" => rng.pick(&[&b"\n"[..], b"\r\n", b"\r", b"\rx", b"x", b""]).to_vec(),
+                    "next_newline" => (0..rng.range(0, 30)).map(|_| *rng.pick(b"ab \r1")).collect(),
+                    _ => b"p cnf".to_vec(),
+                }
+            } else if rng.chance(1, 2) {
+                rand_numeral(rng, ty)
+            } else {
+                // 7..24 digits: around the 8-byte word
+                let mut d = { let n = rng.range(6, 24) as usize; digits_of(rng, n) };
+                if func.starts_with('s') && rng.chance(1, 2) {
+                    d.insert(0, b'-');
+                }
+                d
+            };
+            let term: Vec<u8> = if rng.chance(1, 6) { vec![] } else if ws && func == "next_newline" { b"\nzz".to_vec() } else { vec![*rng.pick(b"x/:}"), b'1', b' '] };
+            let pat = if func == "fixed" {
+                match rng.below(3) { 0 => hex(&body), 1 => hex(b"p cnf 1"), _ => hex(b"p cn") }
+            } else {
+                "-".into()
+            };
+            let blen = body.len();
+            body.extend_from_slice(&term);
+            let (off, tail, bl, c) = match dim {
+                D_OFF => {
+                    let off = size;
+                    let bl = *rng.pick(&[0usize, off, off + 7, off + 8, off + 9, off + blen, off + body.len() + 5, off.saturating_sub(1)]);
+                    // unbuffered prefix is pulled one byte per read
+                    (off, 0usize, bl, Some(pick_chunk(rng, bl, &sizes)))
+                }
+                D_BL => {
+                    // the numeral straddles the end of the buffered data
+                    let j = rng.below(13) as usize;
+                    let off = size.saturating_sub(j);
+                    (off, if rng.chance(1, 2) { 0 } else { rng.range(0, 100) as usize }, size, Some(pick_chunk(rng, size, &sizes)))
+                }
+                D_CHUNK => {
+                    let off = if rng.chance(1, 2) { 0 } else { rng.range(0, 40) as usize };
+                    let bl = *rng.pick(&[0usize, off + 8, size - 1, size, size + 1, 2 * size, 2 * size + 1]);
+                    (off, if bl > off + body.len() { bl - off - body.len() + rng.below(20) as usize } else { 0 }, bl, Some(size))
+                }
+                _ => {
+                    let off = if rng.chance(1, 2) { 0 } else { rng.range(0, 40) as usize };
+                    let bl = *rng.pick(&[0usize, 0, off + 8, off + blen, off + blen + 1, 100]);
+                    (off, size, bl, if rng.chance(1, 2) { None } else { Some(pick_chunk(rng, bl, &sizes)) })
+                }
+            };
+            let d = join_fields(&[junk_field(rng, off), hex(&body), junk_field(rng, tail)]);
+            match c {
+                Some(c) => format!("scan fn={} ty={} d={} off={} bl={} c={} p={}", func, ty, d, off, bl, c, pat),
+                None => format!("scan fn={} ty={} d={} off={} bl={} p={}", func, ty, d, off, bl, pat),
+            }
+        }
+        D_BLANKS | D_LINE => {
+            let func = if dim == D_BLANKS { "blanks" } else { "next_newline" };
+            let off = match rng.below(5) { 0 => rng.range(1, 9) as usize, 1 => *rng.pick(&sizes), _ => 0 };
+            let run = if dim == D_BLANKS {
+                match rng.below(4) {
+                    0 => format!("r{}.20", size),
+                    1 => format!("r{}.09", size),
+                    2 => format!("r{}.2009+{}", size / 2, if size % 2 == 1 { "20" } else { "-" }),
+                    _ => format!("r{}.20+r{}.09", size - size / 3, size / 3),
+                }
+            } else {
+                match rng.below(4) {
+                    0 => format!("r{}.61", size),
+                    1 => format!("r{}.0d", size),
+                    2 => format!("r{}.20", size),
+                    _ => format!("r{}.630d+{}", size / 2, if size % 2 == 1 { "0b" } else { "-" }),
+                }
+            };
+            let term = if rng.chance(1, 4) { "-".to_string() } else if dim == D_BLANKS { hex(*rng.pick(&[&b"x "[..], b"\n ", b"1\t", b"\r"])) } else { hex(*rng.pick(&[&b"\n"[..], b"\na", b"\n\n"])) };
+            let total = off + size;
+            let bl = *rng.pick(&[0usize, 0, off + size / 2, total - 1, total, total + 1, total + 9, off + 8]);
+            let c = pick_chunk(rng, bl, &sizes);
+            let d = join_fields(&[junk_field(rng, off), run, term]);
+            format!("scan fn={} ty=- d={} off={} bl={} c={} p=-", func, d, off, bl, c)
+        }
+        _ => {
+            // D_PAT: pattern of `size` bytes; full match, mismatch at one position, input ends inside
+            let period = rng.pick(&[&b"ab"[..], b"p cnf ", b"\r\n", b"0123456789abcdef", b"x"]).to_vec();
+            let field = |n: usize| -> String {
+                if n == 0 { return "-".into(); }
+                let (q, r) = (n / period.len(), n % period.len());
+                join_fields(&[if q > 0 { format!("r{}.{}", q, hex(&period)) } else { "-".into() }, if r > 0 { hex(&period[..r]) } else { "-".into() }])
+            };
+            let off = match rng.below(5) { 0 => rng.range(1, 9) as usize, 1 => *rng.pick(&sizes), _ => 0 };
+            let pat = field(size);
+            let (body, blen) = match rng.below(6) {
+                0 | 1 => (join_fields(&[field(size), hex(b"zz")]), size + 2),
+                2 => (field(size), size),
+                // input ends one byte / half way before the pattern does
+                3 => (field(size - 1), size - 1),
+                4 => (field(size / 2), size / 2),
+                // one byte differs: period positions shift after index j
+                _ => {
+                    let jr = rng.below(size as u64) as usize;
+                    let j = *rng.pick(&[0usize, size - 1, size / 2, jr]);
+                    // bytes 0..j of the pattern, a foreign byte, then anything
+                    (join_fields(&[field(j), "ff".into(), junk_field(rng, size - j)]), size + 1)
+                }
+            };
+            let bl = *rng.pick(&[0usize, 0, off + 1, off + size / 2, off + size - 1, off + size, off + blen + 3]);
+            let c = pick_chunk(rng, bl, &sizes);
+            let d = join_fields(&[junk_field(rng, off), body]);
+            format!("scan fn=fixed ty=- d={} off={} bl={} c={} p={}", d, off, bl, c, pat)
+        }
+    }
 }
